@@ -397,6 +397,7 @@ func newPathState(item WorkItem) *pathState {
 	return &pathState{
 		prefix:     item.Prefix,
 		model:      item.Model,
+		itemModel:  item.Model,
 		modelValid: len(item.Prefix) == 0,
 		reached:    map[string]int{},
 		assertHit:  map[string]int{},
